@@ -365,6 +365,29 @@ def sc_driver(rng, n):
     return recs
 
 
+def sc_struct_driver(quick):
+    """limb-structured scalars for both limb layouts: n with one limb raised / lowered by one unit, the all-ones pattern with one limb
+    lowered, values that differ from n in exactly one limb -- the operands on which a limb-wise range test (check_overflow, is_high) or a
+    carry chain goes wrong when it consults the wrong limb"""
+    vals = []
+    HALF = N >> 1
+    for w in (64, 32):
+        for j in range(0, 256 // w):
+            u = 1 << (w * j)
+            for base in (N, HALF, N - 1, HALF + 1):
+                vals += [(base + u) % 2**256, (base - u) % 2**256]
+            vals.append((2**256 - 1 - u * ((1 << w) - 1)) % 2**256)          # all ones except limb j = 0
+            vals.append((N & ~(((1 << w) - 1) << (w * j))) % 2**256)         # n with limb j cleared
+            vals.append((N | (((1 << w) - 1) << (w * j))) % 2**256)          # n with limb j all ones
+    recs = []
+    for v in vals:
+        for op in ("set_b32", "set_b32_seckey", "preds", "negate", "half") + (() if quick else ("inverse_var", "split_lambda", "split_128")):
+            recs.append({"e": "KScalar", "in": {"op": op, "a": b32(v), "b": b32(1), "k": 0, "f": 0}})
+        recs.append({"e": "KScalar", "in": {"op": "add", "a": b32(v), "b": b32(N - 1), "k": 0, "f": 0}})
+        recs.append({"e": "KScalar", "in": {"op": "eq", "a": b32(v), "b": b32(v % N), "k": 0, "f": 0}})
+    return recs
+
+
 def group_driver(rng, pts, n):
     """pts: affine points [0, x, y] obtained from the implementation (first stage)"""
     INF = [1, [], []]
@@ -545,7 +568,7 @@ def run(chk):
         if not chk.violations: raise Infra("driver: too few points from the first stage")
         chk.notes.append("T direction skipped: the first driver stage produced no points (the implementation already failed the replays above)")
         return finish(chk, variants, fstat, sst, str_, gen, {})
-    common = sc_driver(rng, nsc) + group_driver(rng, pts, ngl) + ecmult_driver(rng, pts, nem) + hash_driver(rng, nh) + fe_driver(rng, nfe, False) + fe_struct_driver(quick)
+    common = sc_driver(rng, nsc) + group_driver(rng, pts, ngl) + ecmult_driver(rng, pts, nem) + hash_driver(rng, nh) + fe_driver(rng, nfe, False) + fe_struct_driver(quick) + sc_struct_driver(quick)
     events = {"std": list(ev1)}; seen = set(); per_variant = {}
     for v in variants:
         inputs = common + fe_driver(random.Random(chk.seed + 17), nfe // 2, True)     # get_bounds values are layout-specific: same inputs, recorded per variant
